@@ -748,6 +748,12 @@ class LibMixin:
                 self.ctx.assume(z3.Implies(self.dhas(r, k), z3.And(
                     Val.is_VRef(val), Val.r(val) > 0, Val.r(val) < self.st.next_id,
                     z3.Or(*[z3.Select(self.st.typeof, Val.r(val)) == i for i in ids]))))
+            elif vs.kind == "attrval":
+                # what an attribute store holds (its proven invariant): a primitive or a builtin list / tuple
+                self.ctx.assume(z3.Implies(self.dhas(r, k), z3.Or(z3.Not(Val.is_VRef(val)), z3.And(
+                    Val.r(val) > 0, Val.r(val) < self.st.next_id,
+                    z3.Or(z3.Select(self.st.typeof, Val.r(val)) == self.table.id("list"),
+                          z3.Select(self.st.typeof, Val.r(val)) == self.table.id("tuple"))))))
             elif self.ctx.must(self.dhas(r, k)):
                 self.assume_shape(val, vs)
         return z3.If(self.dhas(r, k), val, default)
